@@ -529,9 +529,10 @@ def r7_buffer(report, repo):
 
 
 def run(report, repo):
-  sc_cfg, send_node = r1_acks(report, repo)
-  r2_chunks(report, repo, sc_cfg, send_node)
-  r3_one_in_flight(report, repo)
-  r4_r5_locks(report, repo)
-  r6_bounded(report, repo)
-  r7_buffer(report, repo)
+  res = report.guard(r1_acks, report, repo)
+  if res is not None:
+    report.guard(r2_chunks, report, repo, res[0], res[1])
+  report.guard(r3_one_in_flight, report, repo)
+  report.guard(r4_r5_locks, report, repo)
+  report.guard(r6_bounded, report, repo)
+  report.guard(r7_buffer, report, repo)
